@@ -107,11 +107,13 @@ size_t _mi_bin_size(size_t bin) {
 
 // Good size for allocation
 size_t mi_good_size(size_t size) mi_attr_noexcept {
-  if (size <= MI_MEDIUM_OBJ_SIZE_MAX) {
-    return _mi_bin_size(mi_bin(size + MI_PADDING_SIZE));
+  // note: the result does not include the padding (if any), so `mi_malloc(mi_good_size(n))` uses
+  // the same block size as `mi_malloc(n)` and `mi_good_size(mi_good_size(n)) == mi_good_size(n)`.
+  if (size <= MI_MEDIUM_OBJ_SIZE_MAX - MI_PADDING_SIZE) {
+    return _mi_bin_size(mi_bin(size + MI_PADDING_SIZE)) - MI_PADDING_SIZE;
   }
   else {
-    return _mi_align_up(size + MI_PADDING_SIZE,_mi_os_page_size());
+    return _mi_align_up(size + MI_PADDING_SIZE,_mi_os_page_size()) - MI_PADDING_SIZE;
   }
 }
 
